@@ -4,12 +4,13 @@ _SRC = ["c11_main.cpp", "c11_pipeline.cpp"] + ["c11_%s_%s.cpp" % (f, v) for f in
 _CONFIGS = {}
 for _f in _FORMS:
     for _v in ("f", "d"):
-        _CONFIGS["%s_%s" % (_f, _v)] = {"quick": 1000, "thorough": 40000}
-        _CONFIGS["%s_%s_big" % (_f, _v)] = {"quick": 300, "thorough": 12000}
+        _CONFIGS["%s_%s" % (_f, _v)] = {"quick": 1000, "thorough": 100000}
+        _CONFIGS["%s_%s_big" % (_f, _v)] = {"quick": 300, "thorough": 30000}
 
-# floors: roughly half of what a normal quick run (13 000 inputs, seed 1) measures; thorough = 20 x quick floors
+# floors: roughly half of what a normal quick run (13 000 inputs, seed 1) measures; thorough = 50 x quick floors (half of the 100 x larger run)
 _QF = {"_distinct_nontrivial": 2000, "cases.completed": 6000, "cmp.intervals": 35000, "pipeline.compared": 5000,
-       "torsion.z2_ne_z3": 200, "dispatch.bf128": 400, "dispatch.cns128": 150, "big.top_clique.9plus": 10,
+       "torsion.z2_ne_z3": 200, "dispatch.bf128": 400, "dispatch.cns128": 150, "big.top_clique.9plus": 100,
+       "enc.index_bits.over64": 120, "enc.index_bits.33_64": 150, "gen.big_wide": 150, "gen.big_rp2": 250, "cmp.isolated": 150,
        "bars.finite.dim1": 4000, "bars.finite.dim2": 150, "bars.finite.dim3plus": 60, "bars.essential.dim1": 4000,
        "obs.zero_length_dropped": 40000,
        "thr.none_inf": 400, "thr.none_max": 400, "thr.below_min": 400, "thr.equal": 1000, "thr.between": 400,
@@ -20,7 +21,7 @@ _QF = {"_distinct_nontrivial": 2000, "cases.completed": 6000, "cmp.intervals": 3
 for _f in _FORMS:
     for _r in _ROUTES:
         _QF["nt.%s.%s" % (_f, _r)] = 300          # inputs with a finite H_1+ interval, per (form x route/encoding)
-_TF = {k: 20 * v for k, v in _QF.items()}
+_TF = {k: 50 * v for k, v in _QF.items()}
 
 SPEC = {
     "property": "C11",
@@ -29,7 +30,8 @@ SPEC = {
             "cycle+chord graphs, cross-polytope two-level matrices; a threshold class from {none as +inf, none as max(), below the minimum, equal "
             "to a distance, between two distances, at the maximum, above it}; dim_max in 0..n-2; a modulus from {2,3,5,7,11,13,32749,65521}; "
             "(big configs) 12-40 points with a sparse threshold graph (grid clouds, sparse random graphs, clusters incl. one 10-12-clique on "
-            "the highest labels, a 12-vertex flag projective plane with decorations) and (n, dim_max, modulus) steered to both sides of the "
+            "the highest labels, a 12-vertex flag projective plane with decorations, and 129-348 points with an 8-10-clique on the highest labels so "
+            "that simplex indices of the bit-field encodings exceed 2^64) and (n, dim_max, modulus) steered to both sides of the "
             "64-bit and 128-bit limits of the encoding dispatcher. The input is handed to the engine in one of the five forms "
             "(Full_distance_matrix, Compressed lower, Compressed upper, Sparse edge list, Euclidean point cloud; float and double; several "
             "constructors per form) and run through ripser_auto, ripser, and help2 with each of Bitfield-64 / Bitfield-128 / CNS-128. The "
@@ -37,7 +39,10 @@ SPEC = {
             "barcode of the brute-force clique complex of the threshold graph (oracle/flag.h for n<=10, a naive recursive clique "
             "enumeration above) reduced by oracle/zp_reduce.h; without threshold the oracle uses the FULL filtration (so the enclosing-radius "
             "shortcut is checked, not assumed); for moduli <= 13 GUDHI's Rips_complex->Simplex_tree::expansion->Persistent_cohomology pipeline "
-            "is run on the same graph as third opinion and a mismatch is attributed two-against-one. non-trivial = input (distinct by hash of "
+            "is run on the same graph as third opinion and a mismatch is attributed two-against-one. Two constructions whose question is memory "
+            "safety (a copy of a matrix used after its original was destroyed; the converting constructor of the upper layout) run in a forked "
+            "child so that a sanitizer report becomes an ordinary violation record. Every case has a 10 s CPU budget and the process a 4 GB "
+            "RSS cap (a wrong reduction can loop forever). non-trivial = input (distinct by hash of "
             "its full description) whose expected barcode has a finite positive-length interval in dimension >= 1.",
     "assumptions": [
         "dissimilarities are finite, non-negative, symmetric with zero diagonal and exactly representable in the value type (integer point "
@@ -45,6 +50,8 @@ SPEC = {
         "n >= 2 and 0 <= dim_max <= n-2 (the quantifier of the property); moduli are primes < 65536",
         "sparse form: the edge list is the graph (no duplicate edges / self loops, neighbour lists sorted as the bindings do); the threshold "
         "argument is documented as ignored there and is passed as +inf, max() or the largest edge",
+        "big configs stay inside the domain the engine accepts: C(n, min(n/2, dim_max+2)) * 2^coeffbits < 2^116 and dim_max <= 60 (beyond, "
+        "the engine documents a std::overflow_error refusal; its dimension type is 8 bits wide)",
         "explicit help2 calls may refuse an encoding that does not fit with std::overflow_error (documented); the dispatcher may not",
         "the third opinion is skipped for moduli > 13 (Field_Zp builds its inverse table in O(p^2))",
         "which encoding the dispatcher picked is not observable; the dispatch.* counters are computed from the documented rule",
@@ -62,8 +69,8 @@ SPEC = {
                 "ripser_auto, ripser and each of the three simplex encodings, under ASan+UBSan; the intervals streamed by the callbacks are "
                 "compared exactly (multiset per dimension, zero-length dropped) with a brute-force clique complex + textbook Z_p column "
                 "reduction, and with GUDHI's own simplex-tree / persistent-cohomology pipeline. Held on what was observed, not a proof: "
-                "inputs have at most 40 points (at most 10 when the complex is dense), cliques of at most 12 vertices, so simplex "
-                "indices above 2^88 are never produced.",
+                "inputs have at most 348 points (at most 10 when the complex is dense), cliques of at most 12 vertices, so simplex "
+                "indices above about 2^100 (and CNS indices above 2^64) are never produced.",
         "note": "trusted: oracle/flag.h + oracle/zp_reduce.h + the recursive clique enumerator of the harness; values are exactly "
                 "representable so no tolerance is used; n>=2, dim_max<=n-2, prime modulus<65536; third opinion only for moduli<=13",
         "technique": "runtime monitoring: randomized inputs x input forms x routes/encodings, independent reference oracle + N-version "
